@@ -194,17 +194,6 @@ def evaluate(root: str, tag: str, files: dict[str, str], meta: dict[str, dict], 
             raise ToolFailure(f"mypy reported an error outside the generated stubs: {path}: {es[:2]}")
         for e in es:
             fails[mod].append({"oracle": "mypy", "message": canon_msg(e.split(": ", 1)[1]), "line": e.split(":")[0]})
-    # ---- types: every spelled-out annotation denotes the same type in the stub (both trees built by mypy)
-    src_json = os.path.join(root, f"types_src_{tag}.json")
-    sdump = json.load(open(src_json)) if os.path.exists(src_json) else type_dump(root, src, src_json, "py", pkgs)
-    tdump = type_dump(root, out, os.path.join(root, f"types_{tag}_{mode}.json"), "pyi",
-                      [p for p in pkgs if os.path.isdir(os.path.join(out, p))])
-    if "modules" in sdump and "modules" in tdump:
-        for m in modules:
-            if m in stubs and m in sdump["modules"] and m in tdump["modules"] and \
-                    not any(f["oracle"] == "syntax" for f in fails[m]):
-                for msg in compare_types(sdump["modules"][m], tdump["modules"][m])[:6]:
-                    fails[m].append({"oracle": "types", "message": msg})
     # ---- stubtest on modules whose stub (and their package's shared stubs) are clean
     clean = {m for m in modules if m in stubs and not fails[m]}
     testable: list[str] = []
@@ -254,6 +243,17 @@ def evaluate(root: str, tag: str, files: dict[str, str], meta: dict[str, dict], 
                     ctx.dist("benign_stubtest_noise", noise)
                 continue
             fails[mod].append({"oracle": "stubtest", "message": canon_msg(l)})
+    # ---- types: every spelled-out annotation denotes the same type in the stub (both trees built by mypy)
+    src_json = os.path.join(root, f"types_src_{tag}.json")
+    sdump = json.load(open(src_json)) if os.path.exists(src_json) else type_dump(root, src, src_json, "py", pkgs)
+    tdump = type_dump(root, out, os.path.join(root, f"types_{tag}_{mode}.json"), "pyi",
+                      [p for p in pkgs if os.path.isdir(os.path.join(out, p))])
+    if "modules" in sdump and "modules" in tdump:
+        for m in modules:
+            if m in stubs and m in sdump["modules"] and m in tdump["modules"] and \
+                    not any(f["oracle"] == "syntax" for f in fails[m]):
+                for msg in compare_types(sdump["modules"][m], tdump["modules"][m])[:6]:
+                    fails[m].append({"oracle": "types", "message": msg})
     # ---- structure
     for m in modules:
         if m in stubs and not any(f["oracle"] == "syntax" for f in fails[m]):
